@@ -270,7 +270,7 @@ def get_rotation_matrix_quaternion(P, Q):
     F[3, 3] = -R[0, 0] - R[1, 1] + R[2, 2]
 
     # diagonalize it
-    l, U = np.linalg.eig(F)
+    l, U = np.linalg.eigh(F)
 
     # extract the eigenvect of the highest eigenvalues
     indmax = np.argmax(l)
